@@ -552,7 +552,53 @@ func (f *pxFrame) copy() *pxFrame {
 	return n
 }
 
+// substLens replaces len(X) by its value where the path has established it (a map range that ran to
+// exhaustion has counted the map's entries) and re-folds the enclosing comparisons.
+func (st *pxState) substLens(t *T) *T {
+	if t == nil {
+		return t
+	}
+	has := false
+	for k := range st.mem {
+		if strings.HasPrefix(k, "#len:") {
+			has = true
+			break
+		}
+	}
+	if !has {
+		return t
+	}
+	var walk func(t *T) *T
+	walk = func(t *T) *T {
+		switch t.Op {
+		case "len":
+			if n, ok := st.mem["#len:"+t.A[0].String()]; ok {
+				return n
+			}
+		case "not":
+			a := walk(t.A[0])
+			if a != t.A[0] {
+				if b, ok := a.boolVal(); ok {
+					return cBool(!b)
+				}
+				return &T{Op: "not", A: []*T{a}, Typ: t.Typ}
+			}
+		case "binop":
+			a, b := walk(t.A[0]), walk(t.A[1])
+			if a != t.A[0] || b != t.A[1] {
+				ops := map[string]token.Token{"+": token.ADD, "-": token.SUB, "*": token.MUL, "==": token.EQL, "!=": token.NEQ, "<": token.LSS, ">": token.GTR, "<=": token.LEQ, ">=": token.GEQ}
+				if op, ok := ops[t.Aux]; ok {
+					return foldBin(op, a, b, t.Typ)
+				}
+			}
+		}
+		return t
+	}
+	return walk(t)
+}
+
 func (r *pxRun) branch(st *pxState, fr *pxFrame, b *ssa.BasicBlock, cond *T, done func(*pxState, *pxFrame, []*T, string)) {
+	cond = st.substLens(cond)
 	if bv, ok := cond.boolVal(); ok {
 		i := 1
 		if bv {
@@ -610,6 +656,20 @@ func (r *pxRun) branch(st *pxState, fr *pxFrame, b *ssa.BasicBlock, cond *T, don
 				s2.terms[l.Atom] = cond
 			}
 			s2.facts[l.Atom] = l.Pol
+			// a map range that has just run to exhaustion has counted the map's entries
+			if !l.Pol {
+				if rg := rangeOfNextAtom(cond); rg != nil && len(rg.A) == 1 && rg.A[0].Op != "make" && !s2.mapTouched(rg.A[0]) {
+					m := 0
+					for atom, pol := range s2.facts {
+						if pol && atom != l.Atom {
+							if r2 := rangeOfNextAtom(s2.terms[atom]); r2 != nil && r2.Inst == rg.Inst {
+								m++
+							}
+						}
+					}
+					s2.mem["#len:"+rg.A[0].String()] = cInt(int64(m))
+				}
+			}
 		}
 		r.block(s2, f2, b.Succs[a.i], b, done)
 	}
@@ -871,8 +931,11 @@ func (r *pxRun) eval(st *pxState, fr *pxFrame, v ssa.Value) *T {
 		*st.inst++
 		t := &T{Op: "make", Inst: *st.inst, Typ: x.Type()}
 		if ms, ok := x.(*ssa.MakeSlice); ok {
-			if n, ok := r.val(st, fr, ms.Len).intVal(); ok && n == 0 {
+			l := r.val(st, fr, ms.Len)
+			if n, ok := l.intVal(); ok && n == 0 {
 				t.HasEl = true
+			} else {
+				t.A = []*T{l} // a slice of (possibly symbolic) length whose elements are stored one by one
 			}
 		}
 		return t
@@ -1072,6 +1135,10 @@ func addrKey(a *T) string {
 	switch a.Op {
 	case "alloc":
 		return "o" + strconv.Itoa(a.Obj)
+	case "make":
+		if len(a.A) == 1 && !isMapType(a.Typ) {
+			return "s" + strconv.Itoa(a.Inst)
+		}
 	case "faddr":
 		if k := addrKey(a.A[0]); k != "" {
 			return k + "." + a.Aux
@@ -1285,6 +1352,12 @@ func (r *pxRun) call(st *pxState, fr *pxFrame, x *ssa.Call, k func(*pxState, *px
 			}
 			if a.Op == "make" && isMapType(a.Typ) {
 				return bind(cInt(int64(len(st.mapEntries(a)) / 2)))
+			}
+			if a.Op == "make" && len(a.A) == 1 {
+				return bind(a.A[0])
+			}
+			if n, ok := st.mem["#len:"+a.String()]; ok {
+				return bind(n)
 			}
 			return bind(&T{Op: "len", A: []*T{a}, Typ: resTyp})
 		case "append":
@@ -1654,7 +1727,9 @@ func termTemplate(t *T) []pseg {
 				add(pseg{Verb: "q", Val: t.A[0]})
 				return
 			case "strconv.AppendQuote":
-				walk(t.A[0])
+				if !t.A[0].Nil && !(t.A[0].HasEl && len(t.A[0].Elems) == 0) {
+					walk(t.A[0])
+				}
 				add(pseg{Verb: "q", Val: t.A[1]})
 				return
 			case "strconv.QuoteRune", "strconv.QuoteRuneToASCII", "strconv.QuoteRuneToGraphic":
@@ -1959,4 +2034,15 @@ func max2i(a, b int) int {
 		return a
 	}
 	return b
+}
+
+// rangeOfNextAtom: for the condition "the k-th Next of a range yielded an entry", the range term.
+func rangeOfNextAtom(cond *T) *T {
+	for cond != nil && cond.Op == "not" {
+		cond = cond.A[0]
+	}
+	if cond == nil || cond.Op != "extract" || cond.Aux != "0" || len(cond.A) != 1 || cond.A[0].Op != "next" || len(cond.A[0].A) != 1 || cond.A[0].A[0].Op != "range" {
+		return nil
+	}
+	return cond.A[0].A[0]
 }
